@@ -132,8 +132,13 @@ def run_group(root, hs, features, timeout):
     cmd = ["cargo", "kani", "-Z", "function-contracts", "-Z", "stubbing", "--output-format", "terse", "-j", str(min(16, max(1, len(hs))))]
     if features:
         cmd += ["--features", features]
+    cmd += ["--exact"]
     for h in hs:
-        cmd += ["--harness", h["name"]]
+        mp = h["append_to"][len("src/"):-len(".rs")].replace("/", "::")
+        if mp.endswith("::mod"):
+            mp = mp[:-5]
+        mp = "" if mp == "lib" else mp + "::"
+        cmd += ["--harness", f"{mp}verif_kani_{h['module']}::{h['name']}"]
     t0 = time.time()
     try:
         p = subprocess.run(cmd, cwd=root, capture_output=True, text=True, env=kani_env(), timeout=timeout)
